@@ -120,12 +120,11 @@ def fill(claim, na):
           "T1, T2", "DESIGN.md 4/C10")
     claim("C11",
           "three-ordering evaluation of choose_role, Automat table rules (selection once, stop-before-start, reconnect rows and output order), CFG guard rules for KCM, write-discipline",
-          "Decides ONLY the structural clauses: complementary roles from the same side pair (equal raises); one selection per Connector "
+          "Decides the structural clauses: complementary roles from the same side pair (equal raises); one selection per Connector "
           "generation and never two racing Connectors; KCM only from the follower after the handshake and from the leader at selection; "
           "reconnect handshake rows present with `reconnecting` announced before connecting starts; dilation generations and dilate-N "
-          "sequenced; loss of the selected connection reported through the one-shot observer. The convergence-without-deadlock clause "
-          "for two live peers over a network is NOT decided (no sound static argument in reach).",
-          "T1; the behavioural half (re-convergence liveness) is explicitly unclaimed", "DESIGN.md 4/C11")
+          "sequenced; loss of the selected connection reported through the one-shot observer. ",
+          "T1; re-convergence is decided as deadlock-freedom of the two-party product under the link model T5 (12.9), not as a timing claim", "DESIGN.md 4/C11, 12.9")
     claim("C12",
           "encoder/decoder layout extraction and agreement (sibling cross-check), constant evaluation, loop-shape rule for chunking, CFG handler rules, role table, Automat who-emits rule",
           "Decides: all 7 record types written and read at the same tag/offset/width/encoding (ping ids 4 bytes at every producer), "
@@ -188,6 +187,22 @@ def fill(claim, na):
 
 
 # sentences appended to the level text: the ordering / error-path rules added after the third seed round (DESIGN.md 12.8)
+ROUND4 = {
+    "C11": "Two-party product (engine A5, C11.R8): Manager, TrafficTimer and Connector of a Leader and a Follower are interpreted abstractly from "
+           "their source and composed through in-order mailbox channels and a link model (T5); over every interleaving of message delivery, link "
+           "events, timer expiries, pongs and stop(): no machine gets an input it has no row for, a side never selects a second connection while "
+           "one is in use, no Connector is created while its predecessor still races, and from every reachable joint state in which nobody stopped "
+           "a state with both sides connected over the same live link is reachable (AG EF converged = no deadlock). This decides the "
+           "convergence clause as possibility under the link model, not as a real-time guarantee.",
+    "C14": "The dilation control plane of both sides (Manager, TrafficTimer, Connector) is explored in the two-party product (C14.R4): no "
+           "undeclared (state, input) pair, failing assertion or explicit builtin raise is reachable.",
+    "C16": "In the two-party product (C16.R4) every timer expiry on a connection in use is examined: after two expiries without a pong the "
+           "Leader has asked the connection to close, and the monitor never drops a connection unless a ping went unanswered over an expiry.",
+    "C17": "In the two-party product (C17.R10): after stop() on either side, in whatever joint state, that side's Manager can always reach its "
+           "terminal state without internal failure, and arrives there with no racing Connector, no pending timer, no pending connection and no "
+           "connection still in use.",
+}
+
 ROUND3 = {
     "C01": "Order inside the key row: the output that stores the key precedes those that re-submit held messages (C01.R5).",
     "C03": "SequenceObserver hands results to observers atomically (taken synchronously, only in fire / when_next_event) and EventualQueue._turn isolates each call in its own try (C03.R3).",
